@@ -255,7 +255,9 @@ def check_block(vals, probs, gx, lay):
     amb_gold = np.zeros(N, dtype=bool)
     for name, gm, gref, Zn, Mref, gap in (("Ah", c("MAh")[:, 0], mZ, "ZA", MA, np.abs(d["mA2"] - d["mZ2"])),
                                            ("Hpm", c("MHpm")[:, 0], mW, "ZP", MP, np.abs(d["mA2"]))):
-        F.add(np.abs(gm - gref) > TOL_REC * gref, name + ":goldstone-mass",
+        # same accuracy as the reconstruction clause: |m_G^2 - m_V^2| <= 1e-10 ||M|| (for |mu|^2 >> ||M|| the
+        # library's (mH^2 + mu^2) cancellation costs eps mu^2, e.g. 1.4e-10 m_Z at mu = 72 TeV)
+        F.add(np.abs(gm * gm - gref * gref) > TOL_REC * np.maximum(_fro(Mref), gref * gref), name + ":goldstone-mass",
               lambda i: "%s: state at index 0 has mass %r, Goldstone mass must be %r" % (name, gm[i], gref[i]))
         Z = c(Zn).reshape(N, 2, 2)
         nM = _fro(Mref)
@@ -449,6 +451,143 @@ def _worker(job):
     return fails, st, keys, samples, len(params)
 
 
+# ------------------------------------------------------------------ public spectrum entry points of MSSMNoFV_onshell
+# calculate_masses() (GM2Calc-type input) and convert_to_onshell() (SLHA-type input: pole masses + DR-bar
+# parameters).  After the call the reported tachyon set must be the set of monitored sectors with a negative
+# squared mass in the textbook matrices built from the model's FINAL Lagrangian parameters; the full C04
+# oracle (reconstruction, Goldstones, identities ...) is applied to the final spectrum as well.
+ENTRY_BASES = ["example.gm2", "example-gm2calc.cpp", "P3", "BM3"]
+ENTRY_SIGNS = (1.0,) * 8
+NAN = float("nan")
+
+
+def entry_dimensions(mode):
+    D = [("tb", [1.5, 40.0]),
+         ("ml2[1]", [-1e4, 0.0, 1e2, 1e8]), ("me2[1]", [-1e4, 0.0, 1e2, 1e8]),
+         ("ml2[2]", [-1e4, 0.0]), ("me2[2]", [-1e4, 0.0]),
+         ("mq2[2]", [-1e4, 0.0]), ("mu2[2]", [-1e4, 0.0]), ("md2[2]", [-1e4, 0.0]),
+         ("ml2[0]", [-1e4]), ("mq2[0]", [-1e4]),                      # unmonitored sectors
+         ("Au[2]", [1e4, -1e4]), ("Ad[2]", [1e5]), ("Ae[2]", [1e5]), ("Ae[1]", [3e6]),
+         ("Mu*", [-1.0, 30.0]), ("M1*", [-1.0]), ("M2*", [-1.0])]
+    if mode == 1:
+        # initial values of the entries the conversion overwrites: small, zero, negative, far off
+        D += [("init:ml2(1,1)", [("abs", 10.0), ("abs", 0.0), ("abs", -1e4), ("abs", 1e8)]),
+              ("init:me2(1,1)", [("abs", 100.0), ("abs", 0.0), ("abs", -1e4), ("abs", 1e8)]),
+              ("init:Mu", [("abs", 1.0), ("abs", 0.0), ("rel", -1.0), ("rel", 10.0)]),
+              ("init:M1", [("abs", 1.0), ("rel", -1.0), ("abs", 1e4)]),
+              ("init:M2", [("abs", 1.0), ("rel", -1.0), ("abs", 1e4)])]
+    return D
+
+
+INIT_IDX = {"init:ml2(1,1)": 0, "init:me2(1,1)": 1, "init:Mu": 2, "init:M1": 3, "init:M2": 4}
+
+
+def entry_case(base, mode, dev):
+    p = mssmrun.os_point(base, 10.0, ENTRY_SIGNS, force=1.0)
+    p = {k: (list(v) if isinstance(v, list) else v) for k, v in p.items()}
+    init = [NAN] * 5
+    for nm, val in dev:
+        if nm == "tb":
+            p["tb"] = val
+        elif nm.endswith("*"):
+            p[nm[:-1]] *= val
+        elif nm.startswith("init:"):
+            pass
+        else:
+            k, i = nm[:-3], int(nm[-2])
+            p[k][i] = val
+    true = [p["ml2"][1], p["me2"][1], p["Mu"], p["M1"], p["M2"]]
+    for nm, val in dev:
+        if nm.startswith("init:"):
+            i = INIT_IDX[nm]
+            init[i] = val[1] if val[0] == "abs" else val[1] * true[i]
+    return p, mode, init
+
+
+def enumerate_entry(dmax):
+    for mode in (0, 1):
+        D = entry_dimensions(mode)
+        for base in ENTRY_BASES:
+            yield base, mode, ()
+            for d in range(1, dmax + 1):
+                for dims in itertools.combinations(range(len(D)), d):
+                    for choice in itertools.product(*[range(len(D[i][1])) for i in dims]):
+                        yield base, mode, tuple((D[i][0], D[i][1][c]) for i, c in zip(dims, choice))
+
+
+def _entry_worker(job):
+    lay = mssmrun.layout("plain")["T"]
+    cases = [entry_case(*j) for j in job]
+    vals, _, probs, gx = mssmrun.run_spec(cases, "plain")
+    tagname = ("calculate_masses", "convert_to_onshell")
+    runname = ("fresh", "fresh-again", "reused-object")
+    fails, st = [], {}
+    ok = [i for i in range(len(probs)) if not probs[i].startswith("X:")]
+    for i in range(len(probs)):
+        if probs[i].startswith("X:"):
+            fails.append((job[i // 3], "entry:%s:exception-escapes" % tagname[job[i // 3][1]],
+                          "an exception escapes although force_output is set (%s run): %s" % (runname[i % 3], probs[i][3:])))
+    keys = set()
+    if ok:
+        F, st, cls, d = check_block(vals[ok], [probs[i] for i in ok], [gx[i] for i in ok], lay)
+        for i, key, what, sector, kind in F.items:
+            gi = ok[i]
+            j = job[gi // 3]
+            fails.append((j, "entry:%s:%s" % (tagname[j[1]], key), "%s  {after %s(), %s run}" % (what, tagname[j[1]], runname[gi % 3])))
+        for i, c in zip(ok, cls):
+            keys.add((tagname[job[i // 3][1]],) + tuple(c))
+        st["entry_points_with_tachyon_report"] = sum(1 for c in cls if c[0])
+    nwarn = 0
+    # the same input must give the same report: twice on fresh objects (and identical numbers), and on a re-used object
+    for c in range(len(job)):
+        a, b, r = 3 * c, 3 * c + 1, 3 * c + 2
+        tn = tagname[job[c][1]]
+        if probs[a] != probs[b] or vals[a].tobytes() != vals[b].tobytes():
+            fails.append((job[c], "entry:%s:not-reproducible" % tn, "two fresh objects with the same input give %r / %r (numbers identical: %s)"
+                          % (probs[a], probs[b], vals[a].tobytes() == vals[b].tobytes())))
+        warned = any(gx[i][1] == "W" for i in (a, r))
+        nwarn += warned
+        # a convergence warning means the final parameters are not determined by the input (the iteration stopped
+        # somewhere that depends on where it started, incl. left-over Yukawas of the previous evaluation)
+        if probs[a] != probs[r] and not warned:
+            fails.append((job[c], "entry:%s:report-differs-on-reused-object" % tn,
+                          "fresh object reports %r, the same input on the re-used object reports %r" % (probs[a], probs[r])))
+    st = {k: v for k, v in st.items() if not isinstance(v, float)}
+    st["entry_cases_with_convergence_warning(reused-report not required)"] = nwarn
+    return fails, st, sorted(keys), len(job), sum(1 for i in ok)
+
+
+def run_entry(ctx, dmax):
+    jobs, cur = [], []
+    for j in enumerate_entry(dmax):
+        cur.append(j)
+        if len(cur) == 150:
+            jobs.append(cur); cur = []
+    if cur:
+        jobs.append(cur)
+    n, nrows, keys, stats = 0, 0, set(), {}
+    with mp.Pool(min(16, os.cpu_count() or 4)) as pool:
+        for fails, st, ks, cnt, rows in pool.imap(_entry_worker, jobs):
+            n += cnt
+            nrows += rows
+            ctx.evals(3 * cnt)
+            keys.update(ks)
+            for k, v in st.items():
+                stats[k] = stats.get(k, 0) + v
+            for (base, mode, dev), key, what in fails:
+                ctx.fail(key, "%s  [base %s, %s-type input, deviations %s]" % (what, base, ("GM2Calc", "SLHA")[mode], list(dev)),
+                         {"entry": {"base": base, "mode": mode, "dev": [[nm, list(v) if isinstance(v, tuple) else v] for nm, v in dev]}})
+            if ctx.out_of_time("entry-point lattice"):
+                pool.terminate()
+                break
+    for k in sorted(keys):
+        ctx.nontrivial(("entry",) + k)
+    ctx.note("entry_point_cases(x3 runs each)", n)
+    ctx.note("entry_point_runs_checked", nrows)
+    ctx.note("entry_point_distinct_(entry,tachyon set,unmonitored negative)", len(keys))
+    ctx.note("entry_point_counts", stats)
+
+
 def run(ctx):
     build.ensure("plain")
     dmax = 2 if ctx.quick else 3
@@ -493,6 +632,7 @@ def run(ctx):
                 stopped = True
                 pool.terminate()
                 break
+    run_entry(ctx, 2 if ctx.quick else 3 if False else 2)
     if not stopped and n != total:
         raise RuntimeError("enumerated %d points, lattice formula says %d" % (n, total))
     for k in sorted(keys):
